@@ -4,6 +4,12 @@
 #include <optional>
 #include "common_types.h"
 
+#ifdef TEAKRA_VERIF
+// Verification hook: every word access is reported first; returning false suppresses the access
+// (used to observe, rather than perform, accesses outside the 0x80000-byte array).
+inline bool (*TeakraVerifMemHook)(std::uint32_t byte_address, bool is_write, std::uint16_t value) = nullptr;
+#endif
+
 namespace Teakra {
 struct SharedMemory {
     // We allocate our own memory if the user doesn't supply their own
@@ -20,6 +26,10 @@ struct SharedMemory {
 
     u16 ReadWord(u32 word_address) const {
         u32 byte_address = word_address * 2;
+#ifdef TEAKRA_VERIF
+        if (TeakraVerifMemHook && !TeakraVerifMemHook(byte_address, false, 0))
+            return 0;
+#endif
         u8 low = raw[byte_address];
         u8 high = raw[byte_address + 1];
         return low | ((u16)high << 8);
@@ -28,6 +38,10 @@ struct SharedMemory {
         u8 low = value & 0xFF;
         u8 high = value >> 8;
         u32 byte_address = word_address * 2;
+#ifdef TEAKRA_VERIF
+        if (TeakraVerifMemHook && !TeakraVerifMemHook(byte_address, true, value))
+            return;
+#endif
         raw[byte_address] = low;
         raw[byte_address + 1] = high;
     }
